@@ -59,7 +59,9 @@ Definition band_begin_block (h : Z) (b : bstate) : bstate :=
   if b_block b =? 0 then b
   else if h mod 20 =? 0 then
     if negb (b_check b) then
-      mkBand (b_block b) (b_last b) 0 true (b_dheight b) (b_dbool b) false (b_msg b) (b_results b)
+      (* first check after a check-flag reset: everything acknowledged so far counts as seen
+         (abci.go:25 after fix C17-F4: SetTempFetchPriceID(GetLastFetchPriceID)) *)
+      mkBand (b_block b) (b_last b) (b_last b) true (b_dheight b) (b_dbool b) false (b_msg b) (b_results b)
     else
       let res := negb (b_last b =? b_temp b) in      (* OraclePriceValidationByRequestID *)
       let d := discard_update h (f_gap (b_msg b)) res (b_dheight b) (b_dbool b) in
@@ -217,17 +219,4 @@ Definition pconsumed (p : pstate) (consumed : list Z) (o : pop) : list Z :=
   match o with
   | Block h => consume consumed (delivered_id h (band_begin_block h (p_band p)))
   | _ => consumed
-  end.
-
-(* KF class C17-F4: the check at this block follows a "first check" (check flag reset by a
-   registration or by a new price-requiring asset: TempFetchPriceID = 0), no request has been
-   acknowledged since, and the one the check takes for new has already been delivered *)
-Definition kf_C17_4 (p : pstate) (consumed : list Z) (o : pop) : bool :=
-  match o with
-  | Block h =>
-      match delivered_id h (band_begin_block h (p_band p)) with
-      | Some r => zmem r consumed && (b_temp (p_band p) =? 0)
-      | None => false
-      end
-  | _ => false
   end.
